@@ -3,28 +3,22 @@ import MythVerif.Proofs.WsQueueTsoTac
 namespace MythVerif.WsqTso
 open MythVerif.Wsq
 
-set_option maxHeartbeats 4000000 in
 theorem f_O_base_pt7 (s : St) (v0) (rest : List Sto) (e b) : Inv s → s.opc = .pt7 e b →
     s.bufO = .base v0 :: rest → Inv (applySto { s with bufO := rest } (.base v0)) := by
   intro h hpc hb
   simp only [applySto]
-  cases h; simp only [hpc, ownerLocked, carry, resetting, ownerFlight] at *
-  tso_finish3
+  tso_fastO h hpc [pt7]
 
-set_option maxHeartbeats 4000000 in
 theorem f_O_base_pt8 (s : St) (v0) (rest : List Sto) (e b) : Inv s → s.opc = .pt8 e b →
     s.bufO = .base v0 :: rest → Inv (applySto { s with bufO := rest } (.base v0)) := by
   intro h hpc hb
   simp only [applySto]
-  cases h; simp only [hpc, ownerLocked, carry, resetting, ownerFlight] at *
-  tso_finish3
+  tso_fastO h hpc [pt8]
 
-set_option maxHeartbeats 4000000 in
 theorem f_O_base_pt9 (s : St) (v0) (rest : List Sto) : Inv s → s.opc = .pt9 →
     s.bufO = .base v0 :: rest → Inv (applySto { s with bufO := rest } (.base v0)) := by
   intro h hpc hb
   simp only [applySto]
-  cases h; simp only [hpc, ownerLocked, carry, resetting, ownerFlight] at *
-  tso_finish3
+  tso_fastO h hpc [pt9]
 
 end MythVerif.WsqTso
